@@ -382,6 +382,20 @@ class Goebner:
             if collector.function in (AggregateFunction.Min, AggregateFunction.Max):
                 raise SympyApi("Cannot express multiplication with min/max aggregate, skipping.")
             rest = [x for x in asts if x.ast_type != ASTType.BodyAggregate]
+            if collector.function == AggregateFunction.SumPlus:
+
+                def nonnegative(term: AST) -> bool:
+                    return (
+                        term.ast_type == ASTType.SymbolicTerm
+                        and term.symbol.type == clingo.SymbolType.Number
+                        and term.symbol.number >= 0
+                    )
+
+                if all(elem.terms and nonnegative(elem.terms[0]) for elem in collector.elements):
+                    # no weight is ignored, so this is a plain sum, which may be scaled by any factor
+                    collector = collector.update(function=AggregateFunction.Sum)
+                elif not all(map(nonnegative, rest)):
+                    raise SympyApi("Cannot scale #sum+ aggregate with a possibly negative factor, skipping.")
             newelements: list[AST] = []
             factor: AST = rest[0]
             for factor_index in range(1, len(rest)):
